@@ -319,6 +319,7 @@ pub struct World {
     pub allow_update_disabled: bool,
     pub idle_self_cancel: bool,
     pub live_trace: bool,
+    pub matrix: bool,
 }
 
 thread_local! {
@@ -386,6 +387,7 @@ impl World {
             harness_fault: None,
             allow_update_disabled: false,
             idle_self_cancel: false,
+            matrix: false,
             live_trace: std::env::var_os("CVERIF_LIVE_TRACE").is_some(),
         }
     }
